@@ -699,3 +699,151 @@ def time_window_tasks(tier, role):
                               'returns arbitrary non-decreasing instants (each step 0..%d ticks, symbolic)' %
                               (kind, size, slide, L, 2 * size + 1), role=role, opts={'covers': ['split']}, budget=300))
     return ts
+
+
+# ------------------------------------------------------------------------------------ two-phase aggregations (C07)
+
+class StreamStub(PyObj):
+    """stands for `Stream<Op>` inside the builder functions of operator/mod.rs: records what the builder passes to
+    group_by_fold / fold_assoc / map, so that the *real* init values and closures can be evaluated"""
+    name = 'Stream'
+    any_type = True
+
+    def __init__(self, cap=None):
+        self.cap = cap if cap is not None else {}
+
+    def trait_call(self, ex, trait, method, args):
+        if method == 'group_by_fold':
+            self.cap.update(kind='keyed', init=args[2], local=args[3], glob=args[4])
+            return StreamStub(self.cap)
+        if method == 'fold_assoc':
+            self.cap.update(kind='global', init=args[1], local=args[2], glob=args[3])
+            return StreamStub(self.cap)
+        if method == 'map':
+            self.cap.setdefault('maps', []).append(args[1])
+            return StreamStub(self.cap)
+        if trait == 'Clone':
+            return self
+        return NotImplemented
+
+
+class UserOp(PyObj):
+    """associative-commutative user function on u64: wrapping add, min or max"""
+    name = 'VerifUserOp'
+
+    def __init__(self, op, by_ref):
+        self.op = op
+        self.by_ref = by_ref
+
+    def apply(self, ex, a, b):
+        if self.op == 'add':
+            return ex.binop('Add', a, b)
+        from mirsym.models import ite_int
+        c = ex.binop('Lt', a, b)
+        return ite_int(c, a, b) if self.op == 'min' else ite_int(c, b, a)
+
+    def trait_call(self, ex, trait, method, args):
+        if trait in ('Fn', 'FnMut', 'FnOnce'):
+            x, y = args[1].fields
+            if self.by_ref:                      # Fn(&mut I, I)
+                x.set(self.apply(ex, x.get(), deref(y)))
+                return unit()
+            return self.apply(ex, deref(x), deref(y))      # Fn(I, I) -> I
+        if trait == 'Clone':
+            return self
+        return NotImplemented
+
+
+class Ident(PyObj):
+    """get_value / keyer: identity on the item"""
+    name = 'VerifIdent'
+
+    def trait_call(self, ex, trait, method, args):
+        if trait in ('Fn', 'FnMut', 'FnOnce'):
+            return deep_copy(deref(args[1].fields[0]))
+        if trait == 'Clone':
+            return self
+        return NotImplemented
+
+
+BUILDERS = {
+    # name: (arguments after self, oracle kind)
+    'reduce_assoc': (lambda op: [UserOp(op, False)], 'reduce'),
+    'group_by_reduce': (lambda op: [Ident(), UserOp(op, True)], 'reduce'),
+    'group_by_sum': (lambda op: [Ident(), Ident()], 'sum'),
+    'group_by_count': (lambda op: [Ident()], 'count'),
+    'group_by_avg': (lambda op: [Ident(), Ident()], 'avg'),
+    'group_by_min_element': (lambda op: [Ident(), Ident()], 'min'),
+    'group_by_max_element': (lambda op: [Ident(), Ident()], 'max'),
+}
+
+
+def two_phase_harness(w, builder, op, nvals, nparts):
+    fn = w.impls[(None, 'Stream')][builder]
+    fn = [f for f in fn if 'Stream<Op>' in f.header.split(')')[0] or len(fn) == 1][0]
+    mkargs, kind = BUILDERS[builder]
+
+    def h(ex):
+        cap = {}
+        ex.call_function(fn, [StreamStub(cap)] + mkargs(op))
+        if 'init' not in cap:
+            raise Unsupported('builder %s did not reach group_by_fold / fold_assoc' % builder)
+        vals = [ex.fresh_int('u64', 'v%d' % i) for i in range(nvals)]
+        # distribute the values over the local (pre-aggregating) replicas, every way
+        parts = [[] for _ in range(nparts)]
+        for v in vals:
+            parts[ex.choose(nparts, 'local replica')].append(v)
+
+        def fold(closure, init, xs):
+            acc = [w.clone_value(ex, init)]
+            for x in xs:
+                ex.call_value(closure, [Ref(acc, 0), x])
+            return acc[0]
+        locals_ = [fold(cap['local'], cap['init'], p) for p in parts if p]       # an empty replica emits nothing
+        order = list(range(len(locals_)))
+        perm = []
+        while order:
+            perm.append(order.pop(ex.choose(len(order), 'arrival at the global fold') if len(order) > 1 else 0))
+        two = fold(cap['glob'], cap['init'], [locals_[i] for i in perm])
+        one = fold(cap['local'], cap['init'], vals)                               # shuffle-then-aggregate form
+        sx = lambda: {'builder': builder, 'op': op, 'parts': [[repr(v) for v in p] for p in parts],
+                      'two_phase': repr(two), 'one_phase': repr(one)}
+        from mirsym.models import values_eq
+        check(ex, zbool(values_eq(ex, two, one)), 'pre-aggregated (two-phase) result differs from the one-phase result', sx)
+        # and the one-phase result is the sequential aggregate
+        zs = [v.z() for v in vals]
+        if kind in ('reduce', 'sum', 'min', 'max'):
+            o = kind if kind in ('min', 'max') else (op if kind == 'reduce' else 'add')
+            acc = zs[0]
+            for z in zs[1:]:
+                acc = acc + z if o == 'add' else (z3.If(z3.ULT(z, acc), z, acc) if o == 'min' else z3.If(z3.UGT(z, acc), z, acc))
+            got = one.fields[0] if isinstance(one, Enum) else one
+            check(ex, got.z() == acc, 'aggregate differs from the sequential %s of the values' % o, sx)
+        elif kind == 'count':
+            check(ex, one.z() == nvals, 'count differs from the number of elements', sx)
+        elif kind == 'avg':
+            s_, c_ = one.fields
+            acc = zs[0]
+            for z in zs[1:]:
+                acc = acc + z
+            check(ex, z3.And(s_.fields[0].z() == acc, c_.z() == nvals), 'avg accumulates a wrong (sum, count)', sx)
+        if len(locals_) > 1:
+            hlib.cover(ex, 'several_partitions')
+        return sx()
+    return h
+
+
+def two_phase_tasks(tier, role):
+    ts = []
+    nv, npart = (3, 2) if tier == 'quick' else (4, 3)
+    for b in BUILDERS:
+        ops = ['add', 'max'] if BUILDERS[b][1] == 'reduce' else ['add']
+        for op in ops:
+            ts.append(Task('two_phase_%s_%s' % (b, op), 'two_phase_harness',
+                           {'builder': b, 'op': op, 'nvals': nv, 'nparts': npart},
+                           bounds='Stream::%s executed from MIR against a recording stream stub; its real init value and '
+                                  'local/global closures applied to %d symbolic u64 values split over %d pre-aggregating '
+                                  'replicas in every way, partial results reaching the global fold in every order; user '
+                                  'function = wrapping %s' % (b, nv, npart, op), role=role,
+                           opts={'covers': ['several_partitions'], 'panic_is_violation': False}, budget=300))
+    return ts
